@@ -740,7 +740,7 @@ pub fn exec_op(op: &Op, ctx: Ctx) {
         Op::ProbeDead => probe_dead(&h, ctx),
         Op::Churn(n) => {
             // the same slot is taken and freed n times; every token issued on the way dies at once
-            let spec = SourceSpec { kind: Kind::Ping, lifecycle: false, prog: vec![], fault: None, via_insert: true, bad_fd: None, ready_at_insert: false };
+            let spec = SourceSpec { kind: Kind::Ping, lifecycle: false, prog: vec![], fault: None, via_insert: true, bad_fd: None, ready_at_insert: false, owns_adapter: false };
             for _ in 0..*n {
                 if let Some(uid) = build::insert(&spec, ctx) {
                     let tok = w(|w| {
